@@ -271,6 +271,12 @@ func lockState(s string) bool {
 // a condition variable) make the predicate false. frame is the innermost
 // krotik/ecal frame of one of the parked goroutines.
 func LockStuck(pre map[uint64]bool) (stuck bool, frame string, parked int) {
+	stuck, frame, parked, _ = LockStuckStacks(pre)
+	return
+}
+
+// LockStuckStacks is LockStuck plus the stacks of the parked goroutines.
+func LockStuckStacks(pre map[uint64]bool) (stuck bool, frame string, parked int, stacks []string) {
 	for _, g := range Dump() {
 		if pre[g.ID] {
 			continue
@@ -283,14 +289,21 @@ func LockStuck(pre map[uint64]bool) (stuck bool, frame string, parked int) {
 			continue
 		}
 		if !lockState(g.State) {
-			return false, "", 0
+			return false, "", 0, nil
 		}
 		parked++
 		if frame == "" {
 			frame = strings.TrimPrefix(g.Frames[i], "github.com/krotik/")
 		}
+		if len(stacks) < 8 {
+			fr := g.Frames
+			if len(fr) > 14 {
+				fr = fr[:14]
+			}
+			stacks = append(stacks, fmt.Sprintf("goroutine %d [%s]: %s", g.ID, g.State, strings.Join(fr, " <- ")))
+		}
 	}
-	return parked > 0, frame, parked
+	return parked > 0, frame, parked, stacks
 }
 
 // WaitDone waits for done. While the progress counter stands still it
